@@ -51,6 +51,19 @@ def addPixels (r : Region) (ps : List Nat) (d : Nat) : Region :=
 def demoteStep (pd : Nat → List Nat) (d : Nat) : Nat → List Nat :=
   setLevel (setLevel pd (d + 1) (dedup (pd (d + 1) ++ (pd d).flatMap children))) d []
 
+/-- `demoteStep` with its two reads shared.  Compiled code would otherwise re-run the whole chain of
+    closures on every access of the resulting function (exponential in the depth); this is the same
+    function (`demoteStep_eq_fast`), and `@[csimp]` makes the evaluator use it. -/
+def demoteStepFast (pd : Nat → List Nat) (d : Nat) : Nat → List Nat :=
+  let a := pd (d + 1)
+  let b := pd d
+  let l := dedup (a ++ b.flatMap children)
+  fun k => if k = d then [] else if k = d + 1 then l else pd k
+
+@[csimp] theorem demoteStep_eq_fast : @demoteStep = @demoteStepFast := by
+  funext pd d k
+  simp only [demoteStep, demoteStepFast, setLevel]
+
 /-- iterations `d, d+1, …, d+n-1` of that loop -/
 def demoteLoop (pd : Nat → List Nat) : Nat → Nat → Nat → List Nat
   | _, 0 => pd
@@ -77,6 +90,18 @@ def promoted (l : List Nat) : List Nat :=
 def renormStep (pd : Nat → List Nat) (d : Nat) : Nat → List Nat :=
   setLevel (setLevel pd d ((pd d).filter (fun x => !complete (pd d) x)))
     (d - 1) (dedup (pd (d - 1) ++ promoted (pd d)))
+
+/-- `renormStep` with its reads shared (see `demoteStepFast`) -/
+def renormStepFast (pd : Nat → List Nat) (d : Nat) : Nat → List Nat :=
+  let l := pd d
+  let up := pd (d - 1)
+  let keep := l.filter (fun x => !complete l x)
+  let par := dedup (up ++ promoted l)
+  fun k => if k = d - 1 then par else if k = d then keep else pd k
+
+@[csimp] theorem renormStep_eq_fast : @renormStep = @renormStepFast := by
+  funext pd d k
+  simp only [renormStep, renormStepFast, setLevel]
 
 /-- iterations `d, d-1, …` (`n` of them) -/
 def renormLoop (pd : Nat → List Nat) : Nat → Nat → Nat → List Nat
